@@ -35,7 +35,7 @@ TIERS = {
     "quick": {"worlds": 900, "wall": 520, "shrink_budget": 50,
               "required_probes": ["c06.run_completed", "c06.alloc_calls", "c06.criteria_true", "c06.stopped_at_max_level",
                                   "c06.level_added", "c06.share_measured"]},
-    "thorough": {"worlds": 30000, "wall": 3300, "shrink_budget": 150,
+    "thorough": {"worlds": 20000, "wall": 2900, "shrink_budget": 150,
                  "required_probes": ["c06.run_completed", "c06.alloc_calls", "c06.criteria_true", "c06.stopped_at_max_level",
                                      "c06.level_added", "c06.share_measured", "c06.zero_variance_in_alloc",
                                      "c06.misconfigured_world"]},
